@@ -61,6 +61,10 @@ claimed["C17"] = dict(engine="vsim", category="exploration", design="DESIGN.md ย
 claimed["C08"] = dict(engine="vsim", category="exploration", design="DESIGN.md ยง3 C08", technique=SIM_TECH, note=SIM_NOTE + " Datagram loss, duplication and reordering by the network are not modelled (the statement is about what the framework does with a datagram it received); recvfrom/sendto errno faults belong to C18.",
    text="Seeded search over payload sizes, sender interleavings, consumption choices and reply operations with a per-datagram identity oracle: the simulated kernel records which datagram each recvfrom returned and every sendto the framework makes, so merged, split, carried-over or misaddressed datagrams are caught exactly; default and poll_opt builds.")
 
+claimed["C12"] = dict(engine="vpool", category="exploration", design="DESIGN.md ยง3 C12", technique="deterministic simulation of pool users under a seeded cooperative scheduler with an address-range ownership ledger and canary patterns; seeded search, shrinking, exact replay",
+   note="sync.Pool is replaced by a deterministic LIFO in the scratch copy (what Get returns must be a function of the history); the class arithmetic and slice handling of the byte-slice pool and the ring-buffer pool are the real code. Sizes above 4 MiB are not exercised.",
+   text="Seeded search over interleaved Get/Put histories from 1..4 simulated tasks with slices of every shape; an exact ledger of outstanding address ranges (memory kept alive so addresses cannot be recycled) decides aliasing and out-of-bounds hand-outs, canaries over the full capacity detect writes through another holder.")
+
 not_applicable = {
  "C16": "pure function of a string / a few integers (parseProtoAddr, capacity normalisation, loop-count clamp): no schedule, clock, I/O or fault for a simulator to control; generating strings would be input fuzzing in simulator vocabulary (DESIGN.md ยง4)",
  "C20": "pure integer arithmetic (power-of-two helpers, size-class index, GFD pack/unpack): exhaustive enumeration or proof is the right tool, not simulation (DESIGN.md ยง4)",
